@@ -67,6 +67,23 @@ pub fn cross<S: Sch>(rec: &mut Rec) {
         };
         rec.sample(&format!("{}-cross", S::NAME), format!("{}: prover run on (q,state_q) against commitment(p); proof replay across points and commitments", id));
         let n = c.polys.len();
+        // Warm verifier: before any attack the verifier of this process accepts honest openings of every commitment
+        // (up to 6 points x 4 transcript pre-states each), so that whatever a verifier remembers between calls
+        // about a commitment it has seen is in place when the crafted proofs arrive.
+        let mut warm = 0usize;
+        for i in 0..n {
+            for (_, pt) in S::points(&cfg, rec.seed).iter().take(6) {
+                for pre in 0..4usize {
+                    if let Ok(s) = open_single::<S>(&keys, &c, &[i], pt, pre, rec.seed, 0) {
+                        if check_single::<S>(&keys, &[&c.comms[i]], pt, &s.values, &s.proof, pre, rec.seed, 0).accepted() {
+                            warm += 1;
+                        }
+                    }
+                }
+            }
+        }
+        rec.op(warm as u64);
+        rec.class(if warm > 0 { "warm-up-accepted" } else { "warm-up-none" });
         for i in 0..n {
             for j in 0..n {
                 if i == j {
